@@ -145,7 +145,16 @@ func (c *Case) Sample(v any) {
 func (c *Case) Violation(class, msg string, detail any) {
 	atomic.AddInt32(&c.nviol, 1)
 	c.st.mu.Lock()
-	if len(c.st.violations) < 200 {
+	same := 0
+	for _, v := range c.st.violations {
+		if v.Class == class {
+			same++
+		}
+	}
+	if same >= 5 {
+		detail = nil // keep the count, drop the bulk
+	}
+	if len(c.st.violations) < 2000 {
 		c.st.violations = append(c.st.violations, Violation{Class: class, Msg: msg, Case: c.Index, Detail: detail})
 	}
 	c.st.mu.Unlock()
@@ -259,6 +268,8 @@ func runChild(t *testing.T, spec *Spec) {
 	if spec.Setup != nil {
 		spec.Setup()
 	}
+	// violations of classes recorded as open known findings do not stop a child early
+	knownClasses := loadKnown(VerifDir(), spec.ID)
 
 	var curCase atomic.Int64
 	curCase.Store(-1)
@@ -285,7 +296,8 @@ func runChild(t *testing.T, spec *Spec) {
 			// verdict. It is recognised early (the process is idle) and the case is
 			// skipped and reported; outside bubbles an idle process is a real deadlock.
 			frozenLimit := spec.CaseTimeout
-			if spec.Bubble {
+			inBubble := spec.Bubble || bubbleNow.Load()
+			if inBubble {
 				frozenLimit = 12 * time.Second
 			}
 			if age < frozenLimit {
@@ -314,12 +326,12 @@ func runChild(t *testing.T, spec *Spec) {
 			if !idle && age < spec.CaseTimeout {
 				continue
 			}
-			fmt.Fprintf(os.Stderr, "WATCHDOG case=%d idle=%v bubble=%v\n%s\n", idx, idle, spec.Bubble, dump)
+			fmt.Fprintf(os.Stderr, "WATCHDOG case=%d idle=%v bubble=%v\n%s\n", idx, idle, inBubble, dump)
 			buf, n := []byte(dump), len(dump)
 			st.mu.Lock()
 			code := 3
 			switch {
-			case idle && spec.Bubble:
+			case idle && inBubble:
 				st.frozen = append(st.frozen, int(idx))
 				code = 4
 			case idle:
@@ -353,7 +365,12 @@ func runChild(t *testing.T, spec *Spec) {
 		st.mu.Lock()
 		st.evals++
 		st.casesDone++
-		nv := len(st.violations)
+		nv := 0
+		for _, v := range st.violations {
+			if _, isKnown := knownClasses[v.Class]; !isKnown {
+				nv++
+			}
+		}
 		st.mu.Unlock()
 		if nv >= 50 {
 			break
@@ -401,6 +418,10 @@ func runOneCase(t *testing.T, spec *Spec, c *Case) {
 	spec.Run(c)
 }
 
+// bubbleNow is true while the current case of this child runs inside a bubble
+// (cases run sequentially within a child process).
+var bubbleNow atomic.Bool
+
 // RunBubble runs fn inside a testing/synctest bubble for a check whose Spec.Bubble
 // is false (checks that mix virtual-time and real-time cases).
 func RunBubble(c *Case, fn func()) {
@@ -409,6 +430,8 @@ func RunBubble(c *Case, fn func()) {
 		runtime.GC()
 	}()
 	outerT := c.T
+	bubbleNow.Store(true)
+	defer bubbleNow.Store(false)
 	synctest.Test(c.T, func(bt *testing.T) {
 		c.T = bt
 		c.Bubble = true
@@ -694,6 +717,8 @@ func runParent(t *testing.T, spec *Spec) {
 				viols = append(viols, Violation{Class: "crash:" + cls, Case: lastCase, Msg: "child process crashed (panic or fatal error outside a harness call boundary)", Detail: excerpt})
 			case r.part != nil && (code == 1 || code == 66):
 				// test failed because of recorded violations / race exit code: fine.
+			case len(raceReports(logTxt)) > 0:
+				// the race detector's exit; the reports were turned into violations above
 			default:
 				inconcl = append(inconcl, fmt.Sprintf("shard %d: child exited with %v and no recognisable cause (see %s)", r.shard, r.err, r.log))
 			}
